@@ -375,6 +375,10 @@ def generate(ctx):
             yield ("corr", "read_varstr", [e[: r.randrange(0, len(e) + 1)]])
     for _ in range(ctx.n(100, 3000)):
         yield ("corr", "read_varstr", [ctx.rbytes(r.randrange(0, 30))])
+    # declared lengths >= 2^63: BytesIO.read raises OverflowError
+    for top in (0x7f, 0x80, 0xff):
+        yield ("corr", "read_varstr", [b"\xff" + ctx.rbytes(7) + bytes([top]) + ctx.rbytes(3)])
+        ctx.label("read_varstr/length>=2^63" if top >= 0x80 else "read_varstr/length<2^63")
     # --- envelopes
     sizes = [0, 1, 2, 31, 32, 33, 255, 256, 1000, 65535, 65536, 100000]
     envs = []
